@@ -288,7 +288,9 @@ Tile(i, reps) ==
          res == [a \in 1..n |-> pe[a] * pr[a]]
      IN Gather(i, res, LAMBDA e : LET r == TLCEval(Unravel(e, res)) IN <<"s", Ravel([a \in 1..n |-> r[a] % pe[a]], pe)>>,
                "tile", [a |-> "tile", i |-> i, reps |-> reps])
-\* numpy.diag: vector -> matrix with the vector on diagonal k;  square matrix -> its diagonal k
+\* numpy.diag: vector -> matrix with the vector on diagonal k;  matrix -> its diagonal k
+MinI(a, b) == IF a < b THEN a ELSE b
+DiagLen(es, k) == IF k >= 0 THEN MinI(es[1], es[2] - k) ELSE MinI(es[1] + k, es[2])
 Diag(i, k) ==
   /\ "diag" \in Acts /\ i \in Us
   /\ LET es == ES(objs[i]) IN
@@ -297,8 +299,8 @@ Diag(i, k) ==
            Gather(i, <<m, m>>, LAMBDA e : LET r == e \div m  c == e % m IN
                                           IF c - r = k THEN <<"s", IF k >= 0 THEN r ELSE c>> ELSE <<"z">>,
                   "diag", [a |-> "diag", i |-> i, k |-> k])
-     \/ /\ Len(es) = 2 /\ es[1] = es[2] /\ Abs(k) < es[1]
-        /\ Gather(i, <<es[1] - Abs(k)>>, LAMBDA e : <<"s", (IF k >= 0 THEN e ELSE e - k) * es[2] + (IF k >= 0 THEN e + k ELSE e)>>,
+     \/ /\ Len(es) = 2 /\ DiagLen(es, k) > 0          \* any (also rectangular) matrix: min(M, N-k) resp. min(M+k, N) entries
+        /\ Gather(i, <<DiagLen(es, k)>>, LAMBDA e : <<"s", (IF k >= 0 THEN e ELSE e - k) * es[2] + (IF k >= 0 THEN e + k ELSE e)>>,
                   "diag", [a |-> "diag", i |-> i, k |-> k])
 Tri(which, i, k) ==
   /\ which \in Acts /\ i \in Us /\ Len(ES(objs[i])) = 2
@@ -307,10 +309,10 @@ Tri(which, i, k) ==
                               IF (which = "triu" /\ c - r >= k) \/ (which = "tril" /\ c - r <= k) THEN <<"s", e>> ELSE <<"z">>,
             which, [a |-> which, i |-> i, k |-> k])
 TraceOp(i) ==
-  /\ "trace" \in Acts /\ CanGrow /\ i \in Us /\ Len(ES(objs[i])) = 2 /\ ES(objs[i])[1] = ES(objs[i])[2]
-  /\ LET o == objs[i]  n == ES(o)[1]
+  /\ "trace" \in Acts /\ CanGrow /\ i \in Us /\ Len(ES(objs[i])) = 2
+  /\ LET o == objs[i]  n == MinI(ES(o)[1], ES(o)[2])  nc == ES(o)[2]        \* (rectangular too: the min(M, N) diagonal entries)
          Z == TLCEval([p \in 0..(Pg - 1) |-> [e \in 0..0 |->
-                 LET acc[m \in 0..n] == IF m = 0 THEN SZero(Dg) ELSE SAdd(acc[m - 1], Ser(heap, o, p, (m - 1) * n + (m - 1))) IN acc[n]]])
+                 LET acc[m \in 0..n] == IF m = 0 THEN SZero(Dg) ELSE SAdd(acc[m - 1], Ser(heap, o, p, (m - 1) * nc + (m - 1))) IN acc[n]]])
      IN NewObj(FreshU(heap, <<>>, Z), [a |-> "trace", i |-> i])
 \* zeros / ones of a given shape with the "data type" of polynomial i
 Const(which, i, res) ==
@@ -377,7 +379,7 @@ Next ==
         \/ \E nes \in ReshapeCat : Reshape(i, nes)
         \/ \E ax \in {None, 0, 1, -1, -2} : Sum(i, ax)
         \/ \E reps \in TileCat : Tile(i, reps)
-        \/ \E k \in {-1, 0, 1} : Diag(i, k) \/ Tri("triu", i, k) \/ Tri("tril", i, k)
+        \/ \E k \in {-2, -1, 0, 1, 2} : Diag(i, k) \/ Tri("triu", i, k) \/ Tri("tril", i, k)
         \/ TraceOp(i)
         \/ \E f \in {"conjugate", "real", "imag"} : CplxOp(f, i)
         \/ FFT(FALSE, i) \/ FFT(TRUE, i)
